@@ -195,7 +195,10 @@ def main(argv):
             return 2
         rc = 0
         man = json.load(open(os.path.join(VERIF, 'MANIFEST.json')))
+        skip = set(filter(None, os.environ.get('VERIF_SKIP', '').split(',')))
         for c in man['checks']:
+            if c['property_id'] in skip:
+                continue
             rc = max(rc, run_check(c['property_id'], a.tier, prog))
         return rc
     return run_check(a.what, a.tier)
